@@ -157,6 +157,10 @@ func Run(t *testing.T, prop string, seed uint64, tier string, replay *hcommon.Re
 		return runC45(t, prop, seed, tier, replay)
 	case "C44":
 		return runC44(t, prop, seed, tier, replay)
+	case "C43":
+		return runC43(t, prop, seed, tier, replay)
+	case "C50":
+		return runC50(t, prop, seed, tier, replay)
 	}
 	return hcommon.RunResult{Prop: prop, Seed: seed, Abort: "unknown property"}
 }
